@@ -53,6 +53,14 @@ func (vc *VC) execCall(fr *Frame, site *ssa.Call, call *ssa.CallCommon, st *Stat
 	fv := vc.value(fr, call.Value)
 	args = append(args, fv)
 	for _, a := range call.Args {
+		if d, interior := fr.ptrs[a]; interior {
+			if _, isAlloc := a.(*ssa.Alloc); !isAlloc {
+				id := vc.fresh("interior")
+				vc.ifacePtr[id] = d
+				args = append(args, Val{T: a.Type(), L: []string{id}})
+				continue
+			}
+		}
 		args = append(args, vc.value(fr, a))
 	}
 	return vc.callByName(fr, st, "dyncall:"+typeKey(call.Value.Type()), call, args, rt)
